@@ -1,4 +1,5 @@
 """C13 — derived views (bin edges, centres, entries, grids, projections) agree with fill."""
+import json
 import math
 import random
 
@@ -209,6 +210,70 @@ class C13Exec(execs.PyExec):
             self.queries.append(("viewat", k, x, before))
         self.grid_checks(p)
 
+    def generic_grid(self, rng, data, qx, qy):
+        from histogrammar.plot.hist_numpy import get_2dgrid
+
+        qc = gen.make_quantity(4)
+
+        def mk_inner():
+            k = rng.choice(["Bin", "SparselyBin", "Categorize"])
+            if k == "Bin":
+                return hg.Bin(rng.choice([2, 3]), 0.0, 2.0, qy, hg.Count())
+            if k == "SparselyBin":
+                return hg.SparselyBin(0.5, qy, hg.Count())
+            return hg.Categorize(qc, hg.Count())
+
+        ko = rng.choice(["Bin", "SparselyBin", "Categorize", "CentrallyBin", "IrregularlyBin"])
+        if ko == "Bin":
+            h = hg.Bin(rng.choice([2, 3, 4]), 0.0, 2.0, qx, mk_inner())
+        elif ko == "SparselyBin":
+            h = hg.SparselyBin(0.5, qx, mk_inner())
+        elif ko == "Categorize":
+            h = hg.Categorize(gen.make_quantity(7), mk_inner())
+        elif ko == "CentrallyBin":
+            h = hg.CentrallyBin([0.0, 1.0, 2.5], qx, mk_inner())
+        else:
+            h = hg.IrregularlyBin([0.0, 1.0, 2.0], qx, mk_inner())
+        rows = []
+        for d, w in data:
+            if not all(isinstance(v, float) and not math.isinf(v) for v in d[:2]):
+                continue
+            d = list(d)
+            d[4] = rng.choice(["a", "b", "c"])
+            d[7] = rng.choice(["p", "q", "r"])
+            rows.append((d, w))
+
+        def items(o):
+            return list(dict(o.bins).items()) if hasattr(o, "bins") else list(enumerate(o.values))
+
+        want = {}
+        for d, w in rows:
+            h.fill(d, w)
+            probe = h.zero()
+            probe.fill(d, w)
+            for xk, sub in items(probe):
+                for yk, cell in items(sub):
+                    if cell.entries != 0:
+                        key = (str(sub._center_from_key(yk)), str(probe._center_from_key(xk)))
+                        want[key] = want.get(key, 0.0) + cell.entries
+        if not rows:
+            return
+        try:
+            xl, yl, grid = get_2dgrid(h)
+        except Exception as e:  # noqa: BLE001
+            self.msgs.append("get_2dgrid of %s x %s raised %s: %s" % (h.name, type(items(h)[0][1]).__name__ if items(h) else "?", type(e).__name__, e))
+            return
+        got = {}
+        for j, y in enumerate(yl):
+            for i, x in enumerate(xl):
+                if grid[j, i] != 0:
+                    got[(y, x)] = got.get((y, x), 0.0) + float(grid[j, i])
+        if got != want:
+            miss = {k: v for k, v in want.items() if got.get(k) != v}
+            extra = {k: v for k, v in got.items() if k not in want}
+            self.msgs.append("get_2dgrid of %s over %s differs from where fill put the data: cells (y, x) missing or wrong %r, unexpected %r"
+                             % (h.name, items(h)[0][1].name if items(h) else "?", miss, extra))
+
     def grid_checks(self, p):
         """2-D grids / projections and Categorize views against the filled data"""
         rng = random.Random(p["seed2d"])
@@ -257,6 +322,29 @@ class C13Exec(execs.PyExec):
                 wanty = sum(w for d, w in fin if math.floor(d[1] / 0.5) == j)
                 if b.entries != wanty:
                     msgs.append("sparse y projection bin %d holds %r, the data give %r" % (j, b.entries, wanty))
+        # the views are read-only and repeatable: asking twice gives the same answer and the histogram is untouched
+        for name, hh in (("Bin x Bin", h2), ("SparselyBin x SparselyBin", s2)):
+            if hh.entries == 0:
+                continue
+            before = json.dumps(hh.toJson(), sort_keys=True)
+
+            def snap(hh=hh):
+                xr, yr, g = hh.xy_ranges_grid()
+                return (np.asarray(g).tolist(), json.dumps(hh.project_on_x().toJson(), sort_keys=True),
+                        json.dumps(hh.project_on_y().toJson(), sort_keys=True))
+
+            try:
+                first, second = snap(), snap()
+            except Exception as e:  # noqa: BLE001
+                msgs.append("a 2-D view of %s raised %s: %s" % (name, type(e).__name__, e))
+                continue
+            if first != second:
+                msgs.append("the 2-D views of %s give different answers when asked twice" % name)
+            if json.dumps(hh.toJson(), sort_keys=True) != before:
+                msgs.append("computing the 2-D views of %s changed the histogram itself" % name)
+        # generic 2-D grid (plot.hist_numpy.get_2dgrid) for every outer x inner combination: the grid holds exactly the weight
+        # `fill` routes to each (x bin, y bin) pair
+        self.generic_grid(rng, data, qx, qy)
         # Categorize: labels / entries / mpv agree with the bins
         c = hg.Categorize(gen.make_quantity(4), hg.Count())
         cats = [rng.choice(["a", "b", "c", "dd"]) for _ in range(rng.randint(0, 10))]
